@@ -65,28 +65,38 @@ theorem createEntry_full_refused (c : Cfg) (v : Nat) (dir : Blk) (name : Bytes) 
       apply Post.bind; apply get1FreeBlock_full c v s1 (by rw [hq1.2.1]; exact hfull)
       exact Post.pure _ _ _ _ ⟨rfl, hq1⟩
 
-/-- **`adfCreateDir` on a full volume** (every flavour, every disk, every fault schedule): the call fails — `RC_VOLFULL`,
-    `RC_ERROR`, or the error of reading the parent — and nothing has changed: no device write, bitmap and memory as before. -/
-theorem createDir_full_refused (c : Cfg) (v nParent : Nat) (name : Bytes) (s : St) (hfull : VolFull c v s.mem) :
-    Post AnyFault c (createDir v nParent name) s (fun rc s' => rc ≠ rcOK ∧ Untouched s s') := by
-  unfold createDir
+theorem createDirLink_full_refused (c : Cfg) (v nParent : Nat) (name : Bytes) (s : St) (hfull : VolFull c v s.mem) :
+    Post AnyFault c (createDirLink v nParent name) s (fun r s' => r.1 ≠ rcOK ∧ r.2 = false ∧ Untouched s s') := by
+  unfold createDirLink
   apply Post.bind; apply Post.getVolCfg
   apply Post.bind; apply readEntryBlock_full
   intro rc parent s1 hm _ hd hw _
   have hq1 : Untouched s s1 := ⟨hd, hm, hw⟩
   simp only
   by_cases hrc : rc ≠ rcOK
-  · rw [if_pos hrc]; exact Post.pure _ _ _ _ ⟨hrc, hq1⟩
+  · rw [if_pos hrc]; exact Post.pure _ _ _ _ ⟨hrc, rfl, hq1⟩
   · rw [if_neg hrc]
     apply Post.bind; apply hasFreeBlocks_pure
     intro hb
     split
-    · exact Post.pure _ _ _ _ ⟨by decide, hq1⟩
+    · exact Post.pure _ _ _ _ ⟨by decide, rfl, hq1⟩
     · apply Post.bind
       refine Post.mono _ _ _ _ _ (createEntry_full_refused c v parent name s1 (by rw [hq1.2.1]; exact hfull)) ?_
       rintro r s2 ⟨hr, hq2⟩
       rw [hr]
-      exact Post.pure _ _ _ _ ⟨by decide, ⟨by rw [hq2.1, hq1.1], by rw [hq2.2.1, hq1.2.1], by rw [hq2.2.2, hq1.2.2]⟩⟩
+      exact Post.pure _ _ _ _ ⟨by decide, rfl, ⟨by rw [hq2.1, hq1.1], by rw [hq2.2.1, hq1.2.1], by rw [hq2.2.2, hq1.2.2]⟩⟩
+
+/-- **`adfCreateDir` on a full volume** (every flavour, every disk, every fault schedule): the call fails — `RC_VOLFULL`,
+    `RC_ERROR`, or the error of reading the parent — and nothing has changed: no device write, bitmap and memory as before. -/
+theorem createDir_full_refused (c : Cfg) (v nParent : Nat) (name : Bytes) (s : St) (hfull : VolFull c v s.mem) :
+    Post AnyFault c (createDir v nParent name) s (fun rc s' => rc ≠ rcOK ∧ Untouched s s') := by
+  unfold createDir
+  apply Post.bind
+  refine Post.mono _ _ _ _ _ (createDirLink_full_refused c v nParent name s hfull) ?_
+  rintro ⟨rc, cont⟩ s1 ⟨hrc, hfalse, hq⟩
+  simp only at hrc hfalse
+  subst hfalse
+  exact Post.pure _ _ _ _ ⟨hrc, hq⟩
 
 theorem createFileLink_full_refused (c : Cfg) (v nParent : Nat) (name : Bytes) (s : St) (hfull : VolFull c v s.mem) :
     Post AnyFault c (createFileLink v nParent name) s (fun r s' => r.1 ≠ rcOK ∧ r.2.2 = none ∧ Untouched s s') := by
